@@ -51,6 +51,7 @@ class Shim:
         self.on_remove = None    # callable(path, phase) called before a real remove
         self._saved = None
         self.faulted = []        # indices that actually fired
+        self.exists_streak = 0   # consecutive os.path.exists probes with no primitive in between
 
     # ------------------------------------------------------------------ bookkeeping
     def begin_call(self):
@@ -68,6 +69,7 @@ class Shim:
         return False
 
     def prim(self, kind, *args):
+        self.exists_streak = 0
         idx = self.k
         self.k += 1
         self.calls.append((kind, tuple(args)))
@@ -219,9 +221,32 @@ class _ArchiveProxy:
         return getattr(self._a, name)
 
 
+PROBE_LIMIT = 1000
+
+
+class _PathProxy:
+    """`os.path` as seen by loguru._file_sink: `exists` is counted so that a probing loop that never finds a free
+    name (generate_rename_path) becomes a RuntimeError of the logging call instead of an endless run"""
+
+    def __init__(self, shim):
+        self._shim = shim
+
+    def exists(self, path):
+        s = self._shim
+        s.exists_streak += 1
+        if s.exists_streak > PROBE_LIMIT:
+            raise RuntimeError("os.path.exists was probed %d times in a row: the rename loop does not terminate"
+                               % PROBE_LIMIT)
+        return real_os.path.exists(path)
+
+    def __getattr__(self, name):
+        return getattr(real_os.path, name)
+
+
 class _OsProxy:
     def __init__(self, shim):
         self._shim = shim
+        self.path = _PathProxy(shim)
 
     def makedirs(self, name, *args, **kwargs):
         self._shim.prim("mkdirs", name)
